@@ -532,9 +532,9 @@ func wiringVariants(c *core.Ctx, rule string) {
 					}
 					refRec := encRecordSeq(c, "REFID", false)
 					canned := map[string]wireCanned{
-						"variants.findReference": func(a []eval.Value) eval.Value { return eval.Tuple{refRec, eval.Nil{}} },
-						"genbank.ReadGenBank":    wireGenbank("ttga"),
-						"gff.ReadGFF":            wireGFF(c, []string{"TTGA"}, 4),
+						"variants.findReference":      func(a []eval.Value) eval.Value { return eval.Tuple{refRec, eval.Nil{}} },
+						"genbank.ReadGenBank":         wireGenbank("ttga"),
+						"gff.ReadGFF":                 wireGFF(c, []string{"TTGA"}, 4),
 						"variants.RegionsFromGenbank": wireRegions("genbank"), "variants.RegionsFromGFF": wireRegions("gff"),
 						// the streaming reader: when the reference is to be taken from the head of the stream, it is there
 						"fastaio.ReadEncodeAlignment": func(a []eval.Value) eval.Value {
